@@ -98,6 +98,55 @@ CLAIMED = {
         "a step cap, never reach a quiescent state with the workflow pending, and (when it "
         "returns) leave every created job finalized as DONE/CACHED/FAILED.",
         SIM_NOTE + " Async tasks get no limits (hold-and-wait by construction).", "DESIGN.md §4 C09"),
+    "C10": (
+        "threadsim", "exploration",
+        "deterministic simulation of real threads: baton-passing scheduler with line-level "
+        "pre-emption (sys.monitoring), virtual time and a scheduling-latency fault; bounded "
+        "liveness oracle at quiescence",
+        "A submitting thread and the executor's real monitor thread are scheduled one at a time "
+        "by a seeded scheduler (PCT-style <= 3 pre-emptions, stress mode, bounded scheduling "
+        "latency) against an in-process fake service; at quiescence every submitted job must have "
+        "been reported exactly once. Covered executor: DockerExecutor; the AWS Batch, K8S, GCP "
+        "Batch and Glue monitors share the pattern but their submit paths are not faked yet.",
+        "Thread scheduling, time and the container service are simulated; the scheduler is a "
+        "recording stub. Sampling, not proof.", "DESIGN.md §4 C10"),
+    "C11": (
+        "threadsim", "exploration",
+        "deterministic simulation of real threads: baton-passing scheduler with bytecode-level "
+        "pre-emption (sys.monitoring INSTRUCTION events), virtual time, scheduling-latency fault; "
+        "exactly-once and conservation oracles",
+        "Generated job streams are added to the real JobArrayer while its real monitor thread "
+        "runs; pre-emption between any two bytecodes of job_array.py; every job must be submitted "
+        "exactly once in a homogeneous batch of legal size, on_error must never fire, and after "
+        "activity stops num_pending must equal the number of jobs not handed off.",
+        "Thread scheduling and time are simulated; submit/on_error are recorders. Sampling, not "
+        "proof.", "DESIGN.md §4 C11"),
+    "C13": (
+        "modelsim", "exploration",
+        "seeded operation histories (settle / register orders, raising and re-entrant callbacks) "
+        "checked operation by operation against an executable reference promise",
+        "Histories of <= 25 operations over <= 16 promises applied to redun.promise.Promise and a "
+        "reference promise written from the statement; states, values and per-promise callback "
+        "sequences are compared after every operation.",
+        "Single-threaded; the reference promise is trusted.", "DESIGN.md §4 C13"),
+    "C24": (
+        "modelsim", "exploration",
+        "seeded add/update/delete histories with injected transient SQL errors against a "
+        "key-value set model, checked after every operation",
+        "Histories of <= 15 tag operations as issued by `redun tag add/update/rm` on the real "
+        "backend (SQLite), optionally with transient OperationalErrors absorbed by db_retry; "
+        "current tags (distinct pairs) must equal the model and the TagEdit graph stay acyclic.",
+        "Multiplicity of identical current pairs is reported, not asserted.", "DESIGN.md §4 C24"),
+    "C25": (
+        "modelsim", "exploration",
+        "seeded advance/merge/rollback histories against a lineage model (DAG + valid set), "
+        "checked after every operation",
+        "Histories of <= 20 fork / call / merge / rollback operations shaped like the scheduler's "
+        "use of handles, against advance_handle / rollback_handle / is_valid_handle on SQLite; "
+        "validity of every known state must equal the model's. Extended histories (deriving from "
+        "rolled-back states) are a separate sub-oracle.",
+        "Workflow-level replay of invalidated handles is exercised by C04/C07 programs only "
+        "indirectly.", "DESIGN.md §4 C25"),
     "C12": (
         "schedsim", "exploration",
         "deterministic simulation: seeded schedules over repeated executions on one backend, "
